@@ -628,6 +628,27 @@ def counter_to_enumerate(block: list[ast.stmt], root) -> list[ast.stmt]:
     return out
 
 
+def destructure_loop_target(block: list[ast.stmt], root) -> list[ast.stmt]:
+    """for x in S: a, b = x; BODY   ->   for a, b in S: BODY      (x read nowhere else)"""
+    out = []
+    for s in block:
+        if isinstance(s, ast.For) and isinstance(s.target, ast.Name) and s.body and isinstance(s.body[0], ast.Assign) and len(s.body[0].targets) == 1 \
+                and isinstance(s.body[0].targets[0], (ast.Tuple, ast.List)) and isinstance(s.body[0].value, ast.Name) and s.body[0].value.id == s.target.id \
+                and all(isinstance(e, ast.Name) for e in s.body[0].targets[0].elts) and len(s.body) >= 2:
+            x = s.target.id
+            reads = sum(1 for n in ast.walk(s) if isinstance(n, ast.Name) and n.id == x and isinstance(n.ctx, ast.Load))
+            stores = sum(1 for n in ast.walk(s) if isinstance(n, ast.Name) and n.id == x and not isinstance(n.ctx, ast.Load))
+            if reads == 1 and stores == 1 and not _escapes(s, {x}, root):
+                new = ast.For(target=ast.Tuple(elts=[ast.Name(id=e.id, ctx=ast.Store()) for e in s.body[0].targets[0].elts], ctx=ast.Store()),
+                              iter=s.iter, body=s.body[1:], orelse=s.orelse, type_comment=None)
+                ast.copy_location(new, s)
+                ast.fix_missing_locations(new)
+                out.append(new)
+                continue
+        out.append(s)
+    return out
+
+
 def normalise_loops(stmts: list[ast.stmt]) -> list[ast.stmt]:
     stmts = [copy.deepcopy(s) for s in stmts]
     total = _loads(stmts)
@@ -647,7 +668,7 @@ def normalise_loops(stmts: list[ast.stmt]) -> list[ast.stmt]:
             if isinstance(s, ast.Try):
                 for h in s.handlers:
                     h.body = rec(h.body)
-        return loops_to_comps(counter_to_enumerate(block, total), total)
+        return loops_to_comps(counter_to_enumerate(destructure_loop_target(block, total), total), total)
     return rec(stmts)
 
 
